@@ -851,6 +851,12 @@ class Engine:
     def drop_events(self, b, ty, e, t):
         adt = ty.get("adt") if ty.get("peel", 0) == 0 else None
         line = t.get("line")
+        # the contents of a box destroyed where they are (`*slot = new_value` drops the old value in place;
+        # `ptr::drop_in_place(&mut (*b).value)`): a move-out and the destruction of what was moved, in one
+        bp = box_part(mk_ref(e)) if e[0] != "call" else None
+        if bp is not None and bp[1] in ("value", "links") and (ty.get("dp", 0) or ty.get("nd") or (ty.get("hp") and ty.get("nd"))):
+            v = ("call", b, "in-place-drop", (mk_ref(e),))
+            return [Ev("moveout", b, None, box=bp[0], field=bp[1], how="in-place", res=v, line=line)] + self.drop_events(b, ty, v, t)
         if adt in GUARD_ADTS:
             return [Ev("release", b, None, guard=e, line=line)]
         if holds_guard(ty):
@@ -1029,8 +1035,8 @@ class Engine:
             targ = (callee.get("targs") or [{}])[0]
             v = args[0] if d == "core::mem::drop" else mk_deref(args[0])
             bp = box_part(args[0]) if d != "core::mem::drop" else None
-            if bp is not None and bp[1] in ("value", "links"):
-                # the contents of a box destroyed where they are: a move-out and the destruction of what was moved, in one
+            if bp is not None and bp[1] in ("value", "links") and not (targ.get("dp", 0) or targ.get("nd")):
+                # (types with drop glue are handled by drop_events; this keeps the move-out for glue-free payload types)
                 v = ("call", b, "in-place-drop", (args[0],))
                 A("moveout", box=bp[0], field=bp[1], how="in-place", res=v)
             evs.extend(self.drop_events(b, targ, v, t))
@@ -1044,6 +1050,17 @@ class Engine:
         if d == "core::mem::forget" and args:
             targ = (callee.get("targs") or [{}])[0]
             A("forget", value=args[0], ty=targ.get("s"), adt=targ.get("adt") if targ.get("peel", 0) == 0 else None)
+            return evs, False
+        if d in ("alloc::boxed::Box::<T>::from_raw", "alloc::boxed::Box::<T, A>::from_raw_in") and args:
+            targ = (callee.get("targs") or [{}])[0]
+            if targ.get("adt") == "cactusref::rc::RcBox" and targ.get("peel", 0) == 0:
+                # the allocation of an object re-wrapped in a Box: the Box owns it from here on -- its contents are moved
+                # out of it or dropped with it, and the allocation is freed when the Box goes (the library never keeps
+                # such a Box): the whole allocation is given up at this point
+                p_ = args[0]
+                for fld in ("value", "links"):
+                    A("moveout", box=p_, field=fld, how="box-from-raw", res=("field", ("deref", p_), fld, "cactusref::rc::RcBox"))
+                A("free", ptr=p_, layout=("call", b, "core::alloc::Layout::new", ()))
             return evs, False
         if d.endswith("Allocator::deallocate") or d in ("alloc::alloc::dealloc",):
             A("free", ptr=args[1] if len(args) > 1 else args[0], layout=args[-1])
@@ -1154,7 +1171,14 @@ def alloc_root(e):
 def arith_chain(e):
     """Length of a chain x ± c ± c ± c … (a loop counter being stepped): the widening trigger."""
     n = 0
-    while isinstance(e, tuple) and e[0] == "bin" and e[1] in ("Add", "Sub", "AddUnchecked", "SubUnchecked") and is_const(e[3]) and n < 64:
+    step = None
+    while isinstance(e, tuple) and e[0] == "bin" and e[1] in ("Add", "Sub", "AddUnchecked", "SubUnchecked") and n < 64:
+        # a constant step, or the same symbolic step every time (`total += count` inside a loop over table entries:
+        # the entry's count is one expression per loop site)
+        if not is_const(e[3]):
+            if step is not None and e[3] != step:
+                break
+            step = e[3]
         e = e[2]
         n += 1
     return n
